@@ -43,6 +43,20 @@ func (w *tw) nodes(ns []Node, depth int) {
 			w.loop(n.Loop, depth)
 		case n.Probe != nil:
 			w.probe(n.Probe)
+		case n.Wrap != nil:
+			open, shut := `<noscript data-m="`+n.Wrap.ID+`">`, `</noscript>`
+			switch n.Wrap.Kind {
+			case "template":
+				open, shut = `<template>`, `</template>`
+			case "table":
+				open, shut = `<table data-m="`+n.Wrap.ID+`"><tbody>`, `</tbody></table>`
+			case "select":
+				open, shut = `<select data-m="`+n.Wrap.ID+`">`, `</select>`
+			}
+			w.sb.WriteString(open)
+			w.nodes(n.Wrap.Body, depth+1)
+			w.nl(depth)
+			w.sb.WriteString(shut)
 		case n.Boom != nil:
 			if strings.HasPrefix(*n.Boom, "\x00") {
 				w.sb.WriteString("end({{ u0 }},{{ boomlast() }})")
@@ -92,6 +106,10 @@ func (w *tw) nodes(ns []Node, depth int) {
 					w.sb.WriteString(",")
 				}
 				switch r.Pos {
+				case "ctx":
+					w.sb.WriteString(`{{ seen("` + r.Path + `") }}`)
+				case "cnt":
+					w.sb.WriteString(`{{ cnt("` + r.Path + `") }}`)
 				case "tern":
 					w.sb.WriteString("{{ " + r.expr() + " ? 'Y' : 'N' }}")
 				case "type":
@@ -111,7 +129,7 @@ func (w *tw) probe(p *Probe) {
 	w.sb.WriteString(`<span data-m="` + p.ID + `">[`)
 	first := true
 	for _, r := range p.Reads {
-		if r.Pos != "text" && r.Pos != "tern" && r.Pos != "type" && r.Pos != "fn" {
+		if r.Pos != "text" && r.Pos != "tern" && r.Pos != "type" && r.Pos != "fn" && r.Pos != "ctx" && r.Pos != "cnt" {
 			continue
 		}
 		if !first {
@@ -120,6 +138,10 @@ func (w *tw) probe(p *Probe) {
 		first = false
 		if r.Pos == "text" {
 			w.sb.WriteString("{{ " + r.Path + " }}")
+		} else if r.Pos == "ctx" {
+			w.sb.WriteString(`{{ seen("` + r.Path + `") }}`)
+		} else if r.Pos == "cnt" {
+			w.sb.WriteString(`{{ cnt("` + r.Path + `") }}`)
 		} else if r.Pos == "type" {
 			w.sb.WriteString("{{ type(" + r.Path + ") }}")
 		} else if r.Pos == "fn" {
@@ -183,16 +205,24 @@ func (w *tw) loop(l *Loop, depth int) {
 			w.sb.WriteString(` ` + l.Fill.Dir + `="` + l.Fill.Path + `"`)
 		}
 	}
-	w.sb.WriteString(">")
+	// a table row holds its content in a cell; the v-else of a row / option is a row / option
+	in, out, etag := "", "", "div"
+	switch l.Tag {
+	case "tr":
+		in, out, etag = "<td>", "</td>", "tr"
+	case "option":
+		etag = "option"
+	}
+	w.sb.WriteString(">" + in)
 	w.nodes(l.Body, depth+1)
 	w.nl(depth)
-	w.sb.WriteString("</" + l.Tag + ">")
+	w.sb.WriteString(out + "</" + l.Tag + ">")
 	if l.Else != nil {
 		w.sb.WriteString(l.Else.Sep)
-		w.sb.WriteString(`<div v-else data-m="` + l.Else.ID + `">`)
+		w.sb.WriteString(`<` + etag + ` v-else data-m="` + l.Else.ID + `">` + in)
 		w.nodes(l.Else.Body, depth+1)
 		w.nl(depth)
-		w.sb.WriteString("</div>")
+		w.sb.WriteString(out + "</" + etag + ">")
 	}
 }
 
